@@ -150,6 +150,60 @@ for perm in itertools.permutations(range(3)):
         SIGNPERM.append(M)
 
 
+def build_variant(case, name, info):
+    """the transformed structure of a recorded case"""
+    syms, pos, L = case["syms"], case["pos"], case["L"]
+    Lm, P = np.array(L, float), np.array(pos, float)
+    if name == "translate":
+        return mk(syms, P + np.array(info["t"]), L)
+    if name == "rotate-exact":
+        Q = np.array(info["Q"])
+        return mk(syms, P @ Q, Lm @ Q)
+    if name == "rotate-generic":
+        R = np.array(info["R"])
+        return mk(syms, P @ R.T, Lm @ R.T)
+    if name == "lattice-shifts":
+        return mk(syms, P + np.array(info["shifts"]) @ Lm, L)
+    if name == "permute":
+        return mk([syms[i] for i in info["perm"]], [pos[i] for i in info["perm"]], L)
+    if name in ("unimodular", "unimodular-nonreduced"):
+        return mk(syms, pos, np.array(info["U"]) @ Lm)
+    if name == "supercell":
+        return mk(syms, pos, L).repeat(tuple(info["rep"]))          # fresh copy: no cached results in .info
+    raise ValueError(name)
+
+
+def judge(ob, ov, name, info, mult):
+    """list of problems of the transformed observables ov against the base observables ob"""
+    probs = []
+    if mult is None:
+        # the sphere selection is centred on atom 0: skip it for permutations (a different atom)
+        keys = [k for k in ob if not (name == "permute" and k == "sphere") and k != "all_finite" and not k.startswith("_")]
+        if "_pair_table" in ob and "_pair_table" in ov and name in ("permute", "translate", "rotate-exact", "lattice-shifts"):
+            relab = (lambda i: info["perm"].index(i)) if name == "permute" else (lambda i: i)
+            for (i_, j_), dv in ob["_pair_table"].items():
+                dn = ov["_pair_table"].get((relab(i_), relab(j_)))
+                if dn is None or abs(dn - dv) > 1e-5:
+                    probs.append("%s: ElementPairs reports %.6f for the pair of atoms (%d,%d), %s after the transformation and relabelling" % (name, dv, i_, j_, dn))
+                    break
+        k = diff(ob, ov, keys)
+        if k:
+            probs.append("%s changes %s: %s -> %s" % (name, k, str(ob[k])[:150], str(ov[k])[:150]))
+        return probs
+    p = None
+    if ob["all_finite"] and ov["n_molecules"] != mult * ob["n_molecules"]:          # infinite chains / networks do not multiply
+        p = "molecule count %d -> %d (x%d expected)" % (ob["n_molecules"], ov["n_molecules"], mult)
+    elif len(ov["bond_lengths"]) != mult * len(ob["bond_lengths"]) or sorted(set(ov["bond_lengths"])) != sorted(set(ob["bond_lengths"])):
+        p = "bond count %d -> %d (x%d expected) or different bond lengths" % (len(ob["bond_lengths"]), len(ov["bond_lengths"]), mult)
+    elif sorted(set(ov["rss"])) != sorted(set(ob["rss"])) or sorted(set(ov["rss_iso"])) != sorted(set(ob["rss_iso"])):
+        p = "per-site dipolar RSS values change"
+    elif ob["all_finite"] and sorted(set(ov["molecule_masses"])) != sorted(set(ob["molecule_masses"])):      # a chain / network is one "molecule" per cell
+        p = "molecule masses change"
+    elif isinstance(ob["hbonds"], dict) and isinstance(ov["hbonds"], dict) and any(ov["hbonds"].get(k_, 0) != mult * v_ for k_, v_ in ob["hbonds"].items()):
+        p = "hydrogen-bond counts %s -> %s (x%d expected)" % (ob["hbonds"], ov["hbonds"], mult)
+    return ["supercell %s: %s" % (info["rep"], p)] if p else []
+
+
 def run(ctx):
     rng = ctx.rng
     quick = ctx.tier == "quick"
@@ -199,76 +253,34 @@ def run(ctx):
             continue
         case0 = dict(L=[list(r) for r in L], pos=[list(p) for p in pos], syms=syms)
         variants = []
-        # rigid translation
         tr = np.array([rng.randint(-40, 40) / 8.0 for _ in range(3)])
-        variants.append(("translate", mk(syms, np.array(pos, float) + tr, L), dict(t=tr.tolist()), None))
-        # exact rotation of structure and cell
+        variants.append(("translate", dict(t=tr.tolist()), None))
         Q = SIGNPERM[rng.randrange(len(SIGNPERM))]
-        variants.append(("rotate-exact", mk(syms, np.array(pos, float) @ Q, Lm @ Q), dict(Q=Q.tolist()), None))
+        variants.append(("rotate-exact", dict(Q=Q.tolist()), None))
         th, ax = rng.uniform(0, math.pi), np.array([rng.uniform(-1, 1) for _ in range(3)])
         ax /= np.linalg.norm(ax)
         K = np.array([[0, -ax[2], ax[1]], [ax[2], 0, -ax[0]], [-ax[1], ax[0], 0]])
         R = np.eye(3) + math.sin(th) * K + (1 - math.cos(th)) * K @ K
-        variants.append(("rotate-generic", mk(syms, np.array(pos, float) @ R.T, Lm @ R.T), dict(theta=th), None))
-        # per-atom lattice shifts
+        variants.append(("rotate-generic", dict(theta=th, R=R.tolist()), None))
         sh = np.array([[rng.randint(-3, 3) for _ in range(3)] for _ in range(n)])
-        variants.append(("lattice-shifts", mk(syms, np.array(pos, float) + sh @ Lm, L), dict(shifts=sh.tolist()), None))
-        # permutation of the atoms
+        variants.append(("lattice-shifts", dict(shifts=sh.tolist()), None))
         pm = rng.sample(range(n), n)
-        variants.append(("permute", mk([syms[i] for i in pm], [pos[i] for i in pm], L), dict(perm=pm), None))
-        # unimodular re-description
+        variants.append(("permute", dict(perm=pm), None))
         U = np.array(UNIMOD[rng.randrange(len(UNIMOD))])
-        variants.append(("unimodular", mk(syms, pos, U @ Lm), dict(U=U.tolist()), None))
-        # supercell
+        variants.append(("unimodular", dict(U=U.tolist()), None))
         rep = rng.choice([(2, 1, 1), (1, 2, 1), (1, 1, 2), (2, 2, 1), (2, 2, 2)])
-        variants.append(("supercell", mk(syms, pos, L).repeat(rep), dict(rep=list(rep)), int(np.prod(rep))))       # fresh copy: no cached results in .info
-        for name, av, info, mult in variants:
+        variants.append(("supercell", dict(rep=list(rep)), int(np.prod(rep))))
+        for name, info, mult in variants:
             ctx.evaluations += 1
             try:
-                ov = observables(av)
+                ov = observables(build_variant(case0, name, info))
             except Exception as e:
                 ctx.fail_input("metamorphic", dict(case0, transform=name, **info), "after %s the observables raised %s: %s" % (name, type(e).__name__, str(e)[:200]), classify)
                 continue
-            if mult is None:
-                # the sphere selection is centred on atom 0: skip it for permutations (a different atom)
-                keys = [k for k in ob if not (name == "permute" and k == "sphere") and k != "all_finite" and not k.startswith("_")]
-                if "_pair_table" in ob and "_pair_table" in ov and name in ("permute", "translate", "rotate-exact", "lattice-shifts"):
-                    relab = (lambda i: info["perm"].index(i)) if name == "permute" else (lambda i: i)
-                    for (i_, j_), dv in ob["_pair_table"].items():
-                        dn = ov["_pair_table"].get((relab(i_), relab(j_)))
-                        if dn is None or abs(dn - dv) > 1e-5:
-                            ctx.fail_input("metamorphic", dict(case0, transform=name, **info),
-                                           "%s: ElementPairs reports %.6f for the pair of atoms (%d,%d), %s after the transformation and relabelling" % (name, dv, i_, j_, dn), classify)
-                            break
-                k = diff(ob, ov, keys)
-                ctx.seen((name, kind, k is None))
-                if k:
-                    ctx.fail_input("metamorphic", dict(case0, transform=name, **info), "%s changes %s: %s -> %s" % (name, k, str(ob[k])[:150], str(ov[k])[:150]), classify)
-            else:
-                p = None
-                if ob["all_finite"] and ov["n_molecules"] != mult * ob["n_molecules"]:          # infinite chains / networks do not multiply
-                    p = "molecule count %d -> %d (x%d expected)" % (ob["n_molecules"], ov["n_molecules"], mult)
-                elif len(ov["bond_lengths"]) != mult * len(ob["bond_lengths"]) or sorted(set(ov["bond_lengths"])) != sorted(set(ob["bond_lengths"])):
-                    p = "bond count %d -> %d (x%d expected) or different bond lengths" % (len(ob["bond_lengths"]), len(ov["bond_lengths"]), mult)
-                elif sorted(set(ov["rss"])) != sorted(set(ob["rss"])) or sorted(set(ov["rss_iso"])) != sorted(set(ob["rss_iso"])):
-                    p = "per-site dipolar RSS values change"
-                elif ob["all_finite"] and sorted(set(ov["molecule_masses"])) != sorted(set(ob["molecule_masses"])):      # a chain / network is one "molecule" per cell
-                    p = "molecule masses change"
-                elif isinstance(ob["hbonds"], dict) and isinstance(ov["hbonds"], dict) and any(ov["hbonds"].get(k_, 0) != mult * v_ for k_, v_ in ob["hbonds"].items()):
-                    p = "hydrogen-bond counts %s -> %s (x%d expected)" % (ob["hbonds"], ov["hbonds"], mult)
-                ctx.seen((name, kind, tuple(info["rep"]), p is None))
-                if p:
-                    ctx.fail_input("metamorphic", dict(case0, transform=name, **info), "supercell %s: %s" % (info["rep"], p), classify)
-    # LatticeABC is independent of the orientation
-    from soprano.properties.basic import LatticeABC
-    for t in range(10 if quick else 100):
-        L = lc.gen_lattice(rng, "general")
-        Q = SIGNPERM[rng.randrange(len(SIGNPERM))]
-        a1 = mk(["H"], [[0, 0, 0]], L)
-        a2 = mk(["H"], [[0, 0, 0]], np.array(L, float) @ Q)
-        ctx.evaluations += 1
-        if not np.allclose(LatticeABC.get(a1), LatticeABC.get(a2), atol=1e-9):
-            ctx.fail_input("metamorphic", dict(L=[list(r) for r in L], transform="rotate-exact", Q=Q.tolist()), "LatticeABC changes under a rigid rotation of the cell", classify)
+            probs = judge(ob, ov, name, info, mult)
+            ctx.seen((name, kind, tuple(info.get("rep", ())), not probs))
+            for p_ in probs[:1]:
+                ctx.fail_input("metamorphic", dict(case0, transform=name, **info), p_, classify)
     # ---- tight clusters in roomy cells, re-described by unimodular matrices after which the shortest lattice vector is no +-1 combination of the rows:
     #      the couplings of each nucleus with its own nearest copy, the pair couplings and the RSS must not notice
     NONRED = [((1, 1, 0), (1, 2, 0), (0, 0, 1)), ((2, 1, 0), (3, 2, 0), (0, 0, 1)), ((1, 0, 1), (0, 1, 0), (1, 0, 2)), ((1, 2, 0), (1, 3, 0), (0, 0, 1)),
@@ -350,6 +362,17 @@ def run(ctx):
 
 
 def replay(obj):
-    print("replay: re-run ./check C05 (inputs are regenerated from the seed %s); recorded case: %s %s" % (obj.get("seed"), obj.get("kind"), str(obj.get("case"))[:600]))
-    print(obj.get("detail"))
+    c = obj.get("case")
+    if obj.get("kind") == "metamorphic" and c and c.get("transform"):
+        name = c["transform"]
+        info = {k: v for k, v in c.items() if k not in ("L", "pos", "syms", "transform")}
+        mult = int(np.prod(c["rep"])) if name == "supercell" else None
+        try:
+            ob, ov = observables(mk(c["syms"], c["pos"], c["L"])), observables(build_variant(c, name, info))
+            probs = judge(ob, ov, name, info, mult)
+        except Exception as e:
+            probs = ["raised %s: %s" % (type(e).__name__, e)]
+        print("replay metamorphic %s on %d atoms -> %s" % (name, len(c["syms"]), "property holds" if not probs else "PROPERTY FAILS: " + probs[0]))
+        return 0 if not probs else 1
+    print("replay: nothing executable in this file: %s %s" % (obj.get("kind"), obj.get("broken_obligations") or obj.get("detail")))
     return 1
